@@ -129,6 +129,7 @@ type srvScript struct {
 	replies   []int64
 	ok        []string
 	hasKey    *int64
+	keyRec    bool // a non-zero hasKey is followed by a well-formed key record in the same message
 	post      *postScript
 	fsPath    string // what a scripted FS exchange names (always refused by the client)
 }
@@ -265,10 +266,24 @@ func runScriptedServer(ctx context.Context, conn net.Conn, sc srvScript, lg *pee
 			return
 		}
 		hk := message.NewMessageForStream(st)
-		if hk.PutInt64(ctx, *sc.hasKey) != nil || hk.FinishMessage(ctx) != nil {
+		if hk.PutInt64(ctx, *sc.hasKey) != nil {
 			return
 		}
-		if *sc.hasKey != 0 {
+		if *sc.hasKey != 0 && sc.keyRec {
+			// key length, protocol, duration, input length, then that many bytes (the wrapped key)
+			for _, v := range []int64{24, 3, 0, 24} {
+				if hk.PutInt64(ctx, v) != nil {
+					return
+				}
+			}
+			if hk.PutBytes(ctx, fillBytes(24, 0x4b)) != nil {
+				return
+			}
+		}
+		if hk.FinishMessage(ctx) != nil {
+			return
+		}
+		if *sc.hasKey != 0 && !sc.keyRec {
 			return
 		}
 	}
@@ -361,6 +376,9 @@ func runClientCase(c *Ctx, cfg clientCfg, sc srvScript) Case {
 	}
 	if sc.hasKey != nil {
 		hks = fmt.Sprint(*sc.hasKey)
+		if *sc.hasKey != 0 && sc.keyRec {
+			hks += "r"
+		}
 	}
 	if sc.post != nil {
 		prc := "none"
@@ -740,6 +758,7 @@ func runHsAdv(c *Ctx) error {
 		{"post-missing", func(s *srvScript) { s.post = nil }},
 		{"haskey-missing", func(s *srvScript) { s.hasKey = nil }},
 		{"haskey-nonzero", func(s *srvScript) { s.hasKey = ip(1) }},
+		{"haskey-nonzero-with-record", func(s *srvScript) { s.hasKey = ip(1); s.keyRec = true }},
 		{"auth-NO-enc-NO", func(s *srvScript) { s.auth = "NO"; s.enc = "NO"; s.replies = nil; s.key = "absent"; s.post.sealed = false }},
 		{"auth-weird", func(s *srvScript) { s.auth = "REQUIRED"; s.replies = nil }},
 	}
@@ -945,7 +964,7 @@ func runHsAdv(c *Ctx) error {
 			cfg := clientCfg{auth: pick(c, levels), enc: pick(c, levels), integ: pick(c, []string{"OPTIONAL", "REQUIRED", "NEVER"}), methods: randMethodList(c), ciphers: pick(c, [][]string{{"AES"}, {"AES", "3DES"}, {"3DES"}, nil})}
 			sc := srvScript{auth: pick(c, []string{"YES", "NO", "YES", "", "REQUIRED"}), enc: pick(c, []string{"YES", "NO"}),
 				methods: randMethodList(c), ciphers: pick(c, [][]string{{"AES"}, {"3DES", "AES"}, {"BLOWFISH"}, nil}), key: pick(c, []string{"good", "good", "absent", "bad"}),
-				ok: pick(c, [][]string{{"CLAIMTOBE"}, nil}), hasKey: pick(c, []*int64{ip(0), ip(0), ip(0), nil, ip(7)})}
+				ok: pick(c, [][]string{{"CLAIMTOBE"}, nil}), hasKey: pick(c, []*int64{ip(0), ip(0), ip(0), nil, ip(7)}), keyRec: c.Rng.Intn(3) == 0}
 			for k := c.Rng.Intn(4); k > 0; k-- {
 				sc.replies = append(sc.replies, pick(c, []int64{bitClaimToBe, bitPassword, 0, 4, 2048, bitClaimToBe | bitPassword, -5, 1 << 30}))
 			}
